@@ -57,6 +57,9 @@ impl Vm {
                     self.bp = 0;
                     self.ep = usize::MAX;
                     self.acc = VCell::undefined();
+                    // what the failed evaluation allocated is garbage now; without this a
+                    // run of failing evaluations is never collected and the heap only grows
+                    self.run_gc();
                     return Err(e);
                 }
             }
